@@ -115,6 +115,21 @@ fn frontpath_case(which: &str, rel: &str, text: &str) -> Sx {
     sx::tagged("frontpath", vec![sx::atom(which), sx::xs(rel), src_sx(text)])
 }
 
+fn regen_case(which: &str, first: &str, second: &str) -> Sx {
+    sx::tagged("regen", vec![sx::atom(which), src_sx(first), src_sx(second)])
+}
+fn desc_case(text: &str) -> Sx {
+    sx::tagged("desc", vec![src_sx(text)])
+}
+
+/// the same definition with another of the line-ending conventions the grammar's `eol_r` admits
+fn with_eol(text: &str, eol: &str) -> String {
+    text.replace('\n', eol)
+}
+
+/// comment lines that are hostile to whoever pastes the definition text into Rust source
+const NASTY_COMMENTS: &str = "# raw string terminators \"# \"## \"### r#\" r##\" \"#\"# br#\"\n# backslashes \\ \\n \\\" \\u{41} quotes ' \" \"\"\" comment markers */ /* // braces {} {{}} {0} attribute #![deny(x)] $crate $x\n#\"#\n";
+
 fn frontmany_case(texts: &[&str]) -> Sx {
     sx::tagged("frontmany", texts.iter().map(|t| src_sx(t)).collect())
 }
@@ -374,6 +389,19 @@ pub fn witnesses() -> Vec<(&'static str, &'static str)> {
         ("ok", "interface a.b\nmethod M(x: int) -> (y: int)\n"),
         ("ok", "interface X--y.9.Z-0.q.UPPER.l0-w--3r\ntype T (a: int)\nmethod Get(t: T) -> (t: ?T)\nerror E9 ()\n"),
         ("ok", "interface org.example.tags\ntype Tagged (name: string, tags: [string](), groups: [][string](), maybe: ?[string](), byname: [string][string]())\nmethod Tag(tags: [string]()) -> (tags: [string]())\nmethod Merge(sets: [][string](), extra: ?[string](), t: Tagged) -> (all: [string](), t: ?Tagged)\nerror Bad (seen: [string]())\n"),
+        // accepted definitions whose TEXT is hostile to being pasted into Rust source (the description is emitted verbatim)
+        ("ok", "# he said \"# and r#\" and \"## \\ \\\" */ {}\ninterface org.example.w\n\n# \"#\nmethod Foo(a: int) -> (b: int)\n"),
+        ("ok", "# CR only\rinterface org.example.w\r\r# second comment \"#\rmethod Foo(a: int) -> (b: int)\rerror Bad (why: string)\r"),
+        ("ok", "# CRLF\r\ninterface org.example.w\r\n\r\nmethod Foo(a: int) -> (b: int)\r\n\r\ntype T (x: ?string)\r\n"),
+        ("ok", "# U+2028 and U+2029\u{2028}interface org.example.w\u{2029}\u{2028}method Foo(a: int) -> (b: int)\u{2028}"),
+        ("ok", "\u{feff}\u{a0}\t# grammar whitespace before and after\ninterface org.example.w\nmethod Foo() -> ()\n\u{3000}\u{feff}\t \n"),
+        // rejected only because of ONE character that Unicode calls white space but the grammar does not (or neither does)
+        ("rejected", "\u{b}interface org.example.w\nmethod Foo() -> ()\n"),
+        ("rejected", "interface org.example.w\nmethod Foo() -> ()\n\u{c}"),
+        ("rejected", "\u{85}interface org.example.w\nmethod Foo() -> ()\n"),
+        ("rejected", "interface org.example.w\nmethod Foo() -> ()\n\u{85}\n"),
+        ("rejected", "\u{200b}interface org.example.w\nmethod Foo() -> ()\n"),
+        ("rejected", "interface org.example.w\nmethod Foo() -> ()\u{b}\n"),
         // rejected texts whose parse error sits at the very end, right after a newline
         ("rejected", "interface org.example.w\n"),
         ("rejected", "interface org.example.w\n\nmethod Foo(a: int,\n"),
@@ -466,6 +494,9 @@ fn all_cases(ctx: &Ctx) -> Vec<Case> {
     // built-in witnesses (the corpus file is written from these; they are cheap to compile)
     for (class, text) in witnesses() {
         cases.push(Case { input: compile_case(text), tags: vec!["kind:compile".into(), "origin:witness".into(), format!("class:{}", class)] });
+        if class == "ok" {
+            cases.push(Case { input: desc_case(text), tags: vec!["kind:desc".into()] });
+        }
         let mut r2 = rng.fork();
         cases_for_program(&mut r2, text, class == "ok", &mut cases, "witness");
     }
@@ -489,8 +520,30 @@ fn all_cases(ctx: &Ctx) -> Vec<Case> {
             2 => "\n\n  # indented comment with \"quotes\" and \\ backslash\n".to_string(),
             _ => "#\n".to_string(),
         };
-        let text = idl_text(&idl, &header);
-        cases.push(Case { input: compile_case(&text), tags: vec!["kind:compile".into(), "origin:benign".into()] });
+        let mut text = idl_text(&idl, &header);
+        let mut deco: Vec<String> = Vec::new();
+        if k % 3 == 1 {
+            text = format!("{}{}", NASTY_COMMENTS, text);
+            deco.push("deco:hostile-comments".into());
+        }
+        let eol = match k % 7 {
+            2 => "\r\n",
+            4 => "\r",
+            6 => if k % 2 == 0 { "\u{2028}" } else { "\u{2029}" },
+            _ => "\n",
+        };
+        if eol != "\n" {
+            text = with_eol(&text, eol);
+            deco.push(format!("deco:eol-{:?}", eol));
+        }
+        if Idl::parse(&text).is_err() {
+            // the real parser has the last word on what is a definition (reported as an ordinary rejected text below)
+            deco.push("deco:rejected".into());
+        }
+        let mut ctags = vec!["kind:compile".to_string(), "origin:benign".to_string()];
+        ctags.extend(deco.iter().cloned());
+        cases.push(Case { input: compile_case(&text), tags: ctags });
+        cases.push(Case { input: desc_case(&text), tags: vec!["kind:desc".into()] });
         cases_for_program(&mut r2, &text, true, &mut cases, "benign");
         texts.push(text);
     }
@@ -522,14 +575,16 @@ fn all_cases(ctx: &Ctx) -> Vec<Case> {
     // front-ends on accepted definitions
     let fronts = ["build", "tosource", "bin", "bin-stdin"];
     for (i, text) in texts.iter().take(if ctx.thorough { 12 } else { 3 }).enumerate() {
+        cases.push(Case { input: front_case("compile", text), tags: vec!["kind:front".into(), "front:compile".into(), "parse:accepted".into()] });
         for w in fronts {
             cases.push(Case { input: front_case(w, text), tags: vec!["kind:front".into(), format!("front:{}", w), "parse:accepted".into()] });
         }
-        if i < 2 {
+        // (the macro takes the text as r#"…"#: a text containing `"#` cannot be handed to it)
+        if i < 2 && !text.contains("\"#") {
             cases.push(Case { input: front_case("derive", text), tags: vec!["kind:front".into(), "front:derive".into(), "parse:accepted".into()] });
         }
     }
-    for w in ["build", "tosource", "bin", "derive"] {
+    for w in ["build", "tosource", "bin", "derive", "compile"] {
         cases.push(Case { input: front_case(w, witnesses()[0].1), tags: vec!["kind:front".into(), format!("front:{}", w), "gen:panic".into()] });
     }
     // the build helper on SEVERAL files in one call (what a build.rs with more than one interface does), and the
@@ -585,6 +640,23 @@ fn all_cases(ctx: &Ctx) -> Vec<Case> {
         }
         cases.push(Case { input: frontpath_case("tosource", "./src.d/org.example.bad.varlink", "interface org.example.w\n"), tags: vec!["kind:frontpath".into(), "parse:rejected".into()] });
     }
+    // generating twice into the same place: long then short (a stale tail must not survive), short then long, same twice
+    {
+        let ok_w: Vec<&str> = witnesses().into_iter().filter(|w| w.0 == "ok").map(|w| w.1).collect();
+        let short = "interface org.example.w\nmethod Foo() -> ()\n";
+        let long = ok_w.iter().cloned().max_by_key(|t| t.len()).unwrap();
+        for which in ["one", "many", "tosource"] {
+            for (a, b, tag) in [(long, short, "long-then-short"), (short, long, "short-then-long"), (long, long, "same-twice")] {
+                cases.push(Case { input: regen_case(which, a, b), tags: vec!["kind:regen".into(), format!("front:{}", which), format!("regen:{}", tag)] });
+            }
+        }
+        if ctx.thorough && texts.len() > 8 {
+            for k in 0..6 {
+                let (a, b) = (&texts[k], &texts[k + 2]);
+                cases.push(Case { input: regen_case(["one", "many", "tosource"][k % 3], a, b), tags: vec!["kind:regen".into(), "regen:random-pair".into()] });
+            }
+        }
+    }
     // a definition the generator handles but rustc rejects: the proc macro must fail in rustc, the other
     // front-ends still emit the text
     for w in ["derive", "build", "bin"] {
@@ -592,8 +664,11 @@ fn all_cases(ctx: &Ctx) -> Vec<Case> {
     }
     for (class, text) in witnesses() {
         if class == "rejected" {
-            for w in ["build", "tosource", "bin", "bin-stdin"] {
-                cases.push(Case { input: front_case(w, text), tags: vec!["kind:front".into(), format!("front:{}", w), "parse:rejected-at-final-newline".into()] });
+            for w in ["build", "tosource", "bin", "bin-stdin", "compile"] {
+                cases.push(Case { input: front_case(w, text), tags: vec!["kind:front".into(), format!("front:{}", w), "parse:rejected-witness".into()] });
+            }
+            if text.starts_with('\u{b}') || (ctx.thorough && !text.contains("\"#")) {
+                cases.push(Case { input: front_case("derive", text), tags: vec!["kind:front".into(), "front:derive".into(), "parse:rejected-witness".into()] });
             }
         }
     }
@@ -605,7 +680,7 @@ fn all_cases(ctx: &Ctx) -> Vec<Case> {
         guard += 1;
         let t = rng.pick(&base).clone();
         let (mt, tag) = idlgen::mutate_text(&mut rng, &t);
-        let w = if nrej % 7 == 6 { "derive" } else { fronts[nrej % 4] };
+        let w = if nrej % 7 == 6 { "derive" } else if nrej % 5 == 4 { "compile" } else { fronts[nrej % 4] };
         if mt.contains("\"#") {
             continue;
         }
@@ -747,6 +822,16 @@ fn front_obs(which: &str, text: &str, derive_res: &BTreeMap<String, build::BinRe
             let produced = std::fs::read_to_string(dir.join("org_example_input.rs")).unwrap_or_default();
             (status_of(code, &err), !produced.is_empty(), reference(true).map(|r| r == produced))
         }
+        "compile" => {
+            // varlink_generator::compile(): the entry point of the varlink!/varlink_file! macros
+            let owned = text.to_string();
+            let r = std::panic::catch_unwind(move || varlink_generator::compile(owned).map(|ts| ts.to_string()));
+            match r {
+                Ok(Ok(produced)) => ("ok", !produced.is_empty(), reference(true).map(|r| r == produced)),
+                Ok(Err(_)) => ("err", false, reference(true).map(|_| false)),
+                Err(_) => ("panic", false, reference(true).map(|_| false)),
+            }
+        }
         "bin" | "bin-stdin" => {
             let mut c = std::process::Command::new(build::target_dir().join("debug").join("varlink-rust-generator"));
             c.arg("--nosource");
@@ -826,6 +911,35 @@ fn frontpath_obs(which: &str, rel: &str, text: &str) -> Sx {
     sx::tagged("frontpath", vec![accepted, sx::atom(status_of(code, &err)), sx::boolean(!produced.is_empty()), same])
 }
 
+/// generate twice into the same place (same input file name, the text edited in between): the output must be that of
+/// a fresh generation of the second text
+fn regen_obs(which: &str, first: &str, second: &str) -> Sx {
+    let accepted = match Idl::parse(second) {
+        Ok(_) => sx::atom("ok"),
+        Err(k) => sx::tagged("rej", vec![sx::atom(k)]),
+    };
+    let base = build::work_dir().join("front").join(format!("{:016x}-regen", build::fnv(format!("{}\u{0}{}\u{0}{}", which, first, second).as_bytes())));
+    let _ = std::fs::remove_dir_all(&base);
+    let out = base.join("out");
+    let _ = std::fs::create_dir_all(&out);
+    let input = base.join("org.example.regen.varlink");
+    let mut last = (None, String::new());
+    for text in [first, second] {
+        std::fs::write(&input, text).expect("front input");
+        let mut c = std::process::Command::new(build::bin_path("fe_build"));
+        c.arg(which).arg(&out).arg(&input);
+        let (code, _, err) = run_tool(&mut c);
+        last = (code, err);
+    }
+    let expected = if which == "tosource" { base.join("org_example_regen.rs") } else { out.join("org.example.regen.rs") };
+    let produced = std::fs::read_to_string(&expected).unwrap_or_default();
+    let same = match generate_inproc(second, which == "tosource") {
+        GenStatus::Ok(r) => sx::boolean(r == produced),
+        _ => sx::atom("-"),
+    };
+    sx::tagged("regen", vec![accepted, sx::atom(status_of(last.0, &last.1)), sx::boolean(!produced.is_empty()), same])
+}
+
 /// `cargo_build_many(&[f0, f1, …])` in one process (the fe_build tool of the probe package)
 fn frontmany_obs(texts: &[String]) -> Sx {
     let mut key = String::new();
@@ -893,7 +1007,7 @@ fn prepare(cases: &[Sx]) -> HashMap<String, String> {
             None => continue,
         };
         let kind = l.first().and_then(|x| x.as_atom()).unwrap_or("");
-        if kind == "frontmany" || kind == "helper-batch" || kind == "frontpath" {
+        if kind == "frontmany" || kind == "helper-batch" || kind == "frontpath" || kind == "regen" {
             continue;
         }
         if kind == "options" {
@@ -995,6 +1109,17 @@ fn prepare(cases: &[Sx]) -> HashMap<String, String> {
             obs[ci] = Some(sx::tagged("helper-batch", vec![sx::atom(if st == "ok" { "ok" } else { "failed" })]).render());
             continue;
         }
+        if kind == "regen" {
+            let which = l.get(1).and_then(|x| x.as_atom()).unwrap_or("");
+            let t1 = l.get(2).and_then(src_text).unwrap_or_default();
+            let t2 = l.get(3).and_then(src_text).unwrap_or_default();
+            if l.get(2).map(|s| s.render()) != Some(src_sx(&t1).render()) || l.get(3).map(|s| s.render()) != Some(src_sx(&t2).render()) {
+                obs[ci] = Some("(bad-case)".into());
+                continue;
+            }
+            obs[ci] = Some(regen_obs(which, &t1, &t2).render());
+            continue;
+        }
         if kind == "frontpath" {
             let which = l.get(1).and_then(|x| x.as_atom()).unwrap_or("");
             let rel = l.get(2).and_then(|x| x.as_str()).unwrap_or_default();
@@ -1076,7 +1201,7 @@ fn prepare(cases: &[Sx]) -> HashMap<String, String> {
                 };
                 obs[ci] = Some(o.render());
             }
-            "probe" | "call" | "raw" => {
+            "probe" | "call" | "raw" | "desc" => {
                 if !bin_ok {
                     obs[ci] = Some(format!("({} nobuild)", kind));
                     if kind == "call" {
@@ -1097,6 +1222,7 @@ fn prepare(cases: &[Sx]) -> HashMap<String, String> {
                             }
                         }
                     }
+                    "desc" => format!("(desc {})", sx::xs(&p.text).render()),
                     "call" => {
                         let k = call_counter.entry(p.stem.clone()).or_insert(0);
                         let c = format!("(call {})", *k);
